@@ -225,6 +225,9 @@ pub fn count_features(u: &Universe, p: &Prob, rep: &mut Report) -> u32 {
     f("unions", !u.unions.is_empty(), rep);
     f("soft", !p.soft.is_empty(), rep);
     f("root-constraints", !p.cons.is_empty(), rep);
+    if u.union_iter != 0 {
+        rep.count("provider-union-iterator-without-size-hint");
+    }
     if u.filter_order != 0 {
         rep.count("provider-filter-answers-in-its-own-order");
     }
